@@ -374,9 +374,9 @@ def run(chk, only=None):
             acc.sort(key=lambda r: r["id"])
             acc = acc[: t.get("wideval_cases", 240)]
             wcases, wfail = bounds_cpp.evaluate(sc, acc, defs, n_env=t.get("wideval_envs", 6), nproc=JOBS)
-            for status, detail, ids in wfail:
-                chk.violation("wideval:%s" % status.lower(), "driver over the generated headers of accepted wide cases %s: %s\n%s" % (
-                    ids[:5], status, str(detail)[-2000:]), {"ids": ids})
+            for wstatus, detail, ids in wfail:
+                chk.violation("wideval:%s" % wstatus.lower(), "driver over the generated headers of accepted wide cases %s: %s\n%s" % (
+                    ids[:5], wstatus, str(detail)[-2000:]), {"ids": ids, "emb": [by_id[i]["emb"] for i in ids[:3]]})
             if wcases:
                 wshards = [wcases[k::4] for k in range(4) if wcases[k::4]]
                 wjobs = [(lambda k=k, part=part: _check_wideval(sc, "we%d" % k, part)) for k, part in enumerate(wshards)]
